@@ -720,6 +720,35 @@ func specialScenarios(start int, seed uint64, thorough bool) []*Scenario {
 		}
 		add(sc)
 	}
+	// S14b: the same for every other value a queued request could have snapshotted: the request
+	// that waits for the slot carries a 40 000-byte header block (and a body); while it waits
+	// the peer lowers MAX_FRAME_SIZE 65536 -> 16384 (alone, or together with INITIAL_WINDOW_SIZE
+	// and MAX_HEADER_LIST_SIZE in one frame); the header block written after the slot frees
+	// is cut by the limit acknowledged by then.
+	for vi, set := range [][][2]uint32{{{5, 16384}}, {{5, 16384}, {4, 1000}, {6, 1 << 20}}, {{6, 1 << 20}, {5, 32768}, {5, 16384}}} {
+		sc := defaultScenario(0, seed, fmt.Sprintf("S14b-settings-lowered-while-queued-%d", vi))
+		sc.Strict = true
+		sc.PeerSettings = [][2]uint32{{3, 1}, {4, 100000}, {5, 65536}}
+		sc.InitConnWU = 1 << 22
+		sc.GrantOnTick = true
+		sc.TickUs = 2000
+		sc.Incs = []uint32{4097, 7000}
+		sc.LowStream, sc.LowConn = 1, 1
+		sc.Reqs = []ReqSpec{
+			{Upload: 400000, RespSize: 1, RespChunk: 16384, App: appReadAll},
+			{Upload: 90000, BigHeader: 40000, RespSize: 1, RespChunk: 16384, App: appReadAll, Gated: true},
+			{Upload: -1, BigHeader: 40000, RespSize: 1, RespChunk: 16384, App: appReadAll, Gated: true},
+		}
+		sc.Actions = []Action{
+			{TrigUp: 20000, TrigTicks: 400, Kind: "start-req", Inc: 1},
+			{TrigTicks: 3, Kind: "start-req", Inc: 2},
+			{TrigTicks: 5, Kind: "settings", Settings: set},
+		}
+		if vi == 1 {
+			sc.FP = Fingerprint{Kind: "custom", Settings: [][2]uint32{{2, 0}, {4, 4194304}}, HeaderPrio: true}
+		}
+		add(sc)
+	}
 	// S15: a PING of the peer processed while the client is in the middle of a header block
 	// (HEADERS read by the peer, CONTINUATION frames held back by a full pipe): the PING ACK
 	// must not land inside the block. Warm-up first so that the peer's SETTINGS are in force.
